@@ -28,12 +28,14 @@ ExpSeq(s) == [k \in 1..Len(s) |-> Expand(s[k])]
 Emittable == {"EVar", "SVar", "Symbol", "Implies", "App", "Mu", "Exists", "MetaVar", "CleanMetaVar", "ESubst", "SSubst",
               "Prop1", "Prop2", "Prop3", "Quantifier", "ModusPonens", "Generalization", "Instantiate", "Pop", "Save",
               "Load", "Publish"}
+\* the serialiser writes the keys of a mapping: an Instantiate with a repeated id is not in its image
+CanEmit(ins) == ins.op = "Instantiate" => \A a \in 1..Len(ins.ids) : \A b \in 1..Len(ins.ids) : a # b => ins.ids[a] # ins.ids[b]
 RECURSIVE Scan(_, _, _, _)
 Scan(bs, i, pubs, emit) ==
   IF i > Len(bs) THEN [ok |-> TRUE, pubs |-> pubs, emit |-> emit]
   ELSE LET d == Decode(bs, i) IN
        IF ~d.ok THEN [ok |-> FALSE, pubs |-> pubs, emit |-> emit]
-       ELSE Scan(bs, d.next, IF d.ins.op = "Publish" THEN pubs + 1 ELSE pubs, emit /\ d.ins.op \in Emittable)
+       ELSE Scan(bs, d.next, IF d.ins.op = "Publish" THEN pubs + 1 ELSE pubs, emit /\ d.ins.op \in Emittable /\ CanEmit(d.ins))
 
 \* instruction sequence with symbol ids renumbered in first-use order (a phase file is not self-contained
 \* w.r.t. symbol numbers: the table is shared by the three files)
